@@ -209,3 +209,169 @@ Section NativeFacts.
     destruct P as [[T A] F]. apply vtype_eqb_eq in T. apply action_eqb_eq in A. eauto.
   Qed.
 End NativeFacts.
+
+(* ---------- every reported result is truthful ---------- *)
+Definition native_auth_failed (sc : scenario) : bool :=
+  native_auth_failed_with sc (has_cap CapTI (caps_of sc)).
+
+(* a reported result carries the action of the level, and its outcome is the fact:
+   expiry, authentic timestamp, revocation (native or plugin verdict, whoever owns it) exactly;
+   authenticity: reported failed only if it failed, and always when notation's own part failed *)
+Definition res_truthful (lvl : level) (sc : scenario) (r : result) : bool :=
+  action_eqb (r_action r) (act_of lvl (r_type r))
+  && match r_type r with
+     | TIntegrity => Bool.eqb (r_failed r) (negb (s_integrity_ok sc))
+     | TAuth => implb (r_failed r) (authenticity_failed sc) && implb (native_auth_failed sc) (r_failed r)
+     | TExpiry => Bool.eqb (r_failed r) (s_expired sc)
+     | TTimestamp => Bool.eqb (r_failed r) (negb (s_ts_ok sc))
+     | TRev => Bool.eqb (r_failed r) (revocation_failed sc)
+     end.
+
+Lemma nat_res_truthful lvl sc r : s_integrity_ok sc = true ->
+  nat_res_ok lvl sc (has_cap CapTI (caps_of sc)) (has_cap CapRev (caps_of sc)) r = true ->
+  res_truthful lvl sc r = true.
+Proof.
+  intros IO. unfold nat_res_ok, res_truthful, native_auth_failed, authenticity_failed, identity_failed,
+    revocation_failed, native_auth_failed_with, native_rev, na0. rewrite IO.
+  destruct r as [t a f]. cbn [r_type r_action r_failed].
+  generalize (s_auth sc =? 0)%N (s_identity_ok sc) (s_expired sc) (s_ts_ok sc) (s_rev_ok sc)
+    (has_cap CapTI (caps_of sc)) (has_cap CapRev (caps_of sc)) (skipb lvl)
+    (match s_presp sc with PResp _ (Some false) _ => true | _ => false end)
+    (match s_presp sc with PResp _ _ (Some false) => true | _ => false end)
+    (action_eqb a (act_of lvl t)).
+  intros a0 idn ex ts rv hT hR sk pti prv ae.
+  destruct t, ae, f, a0, idn, ex, ts, rv, hT, hR, sk, pti, prv; cbn; congruence.
+Qed.
+
+Lemma set_auth_truthful lvl sc rs : authenticity_failed sc = true ->
+  forallb (res_truthful lvl sc) rs = true -> forallb (res_truthful lvl sc) (set_auth_failed rs) = true.
+Proof.
+  intros AF. induction rs as [|r rs IH]; cbn [set_auth_failed forallb]; [auto|].
+  rewrite andb_true_iff. intros [H1 H2].
+  destruct (vtype_eqb (r_type r) TAuth) eqn:E; cbn [forallb]; rewrite andb_true_iff; split; auto.
+  apply vtype_eqb_eq in E. unfold res_truthful in *. cbn [r_type r_action r_failed]. rewrite E in H1.
+  rewrite AF. apply andb_true_iff in H1. destruct H1 as [A _]. rewrite A.
+  destruct (native_auth_failed sc); reflexivity.
+Qed.
+
+Lemma has_cap_cons_r c x l : has_cap c l = true -> has_cap c (x :: l) = true.
+Proof. unfold has_cap. cbn. intros ->. now rewrite orb_true_r. Qed.
+
+Lemma process_caps_truthful lvl sc p ti rev : s_presp sc = PResp p ti rev ->
+  forall caps rs,
+    (has_cap CapTI caps = true -> has_cap CapTI (caps_of sc) = true) ->
+    (has_cap CapRev caps = true -> has_cap CapRev (caps_of sc) = true) ->
+    forallb (res_truthful lvl sc) rs = true ->
+    forallb (res_truthful lvl sc) (snd (process_caps lvl ti rev caps rs)) = true.
+Proof.
+  intros PR. induction caps as [|c caps IH]; intros rs HT HR F; [exact F|].
+  assert (HT' : has_cap CapTI caps = true -> has_cap CapTI (caps_of sc) = true)
+    by (intros H; apply HT; now apply has_cap_cons_r).
+  assert (HR' : has_cap CapRev caps = true -> has_cap CapRev (caps_of sc) = true)
+    by (intros H; apply HR; now apply has_cap_cons_r).
+  destruct c; cbn [process_caps].
+  - destruct ti as [[|]|]; [now apply IH | | exact F].
+    assert (AF : authenticity_failed sc = true).
+    { unfold authenticity_failed, identity_failed. rewrite (HT eq_refl), PR. now rewrite orb_true_r. }
+    pose proof (set_auth_truthful lvl sc rs AF F) as F'.
+    destruct (is_critical_failure (auth_action rs) true); [exact F'|]. now apply IH.
+  - destruct rev as [ok|]; [|exact F].
+    assert (F' : forallb (res_truthful lvl sc) (rs ++ [mk_res TRev (l_rev lvl) (negb ok)]) = true).
+    { rewrite forallb_app, F. cbn [forallb andb]. rewrite andb_true_r.
+      unfold res_truthful. cbn [r_type r_action r_failed act_of]. unfold revocation_failed.
+      rewrite (HR eq_refl), PR. destruct (l_rev lvl), ok; reflexivity. }
+    destruct (is_critical_failure (l_rev lvl) (negb ok)); [exact F'|]. now apply IH.
+  - now apply IH.
+Qed.
+
+(* which result types the plugin stage adds: only revocation results, and none
+   unless the revocation capability is asked *)
+Lemma set_auth_types rs : map r_type (set_auth_failed rs) = map r_type rs.
+Proof.
+  induction rs as [|r rs IH]; [reflexivity|]. cbn [set_auth_failed].
+  destruct (vtype_eqb (r_type r) TAuth) eqn:E; cbn [map r_type]; [|now rewrite IH].
+  apply vtype_eqb_eq in E. now rewrite E.
+Qed.
+
+Lemma process_caps_types lvl ti rev caps : forall rs,
+  exists k, map r_type (snd (process_caps lvl ti rev caps rs)) = map r_type rs ++ repeat TRev k
+            /\ (has_cap CapRev caps = false -> k = 0%nat).
+Proof.
+  induction caps as [|c caps IH]; intros rs.
+  - exists 0%nat. cbn. now rewrite app_nil_r.
+  - destruct c; cbn [process_caps].
+    + destruct ti as [[|]|].
+      * apply IH.
+      * destruct (is_critical_failure (auth_action rs) true).
+        -- exists 0%nat. cbn [snd repeat]. now rewrite app_nil_r, set_auth_types.
+        -- destruct (IH (set_auth_failed rs)) as (k & E & Z). exists k. now rewrite E, set_auth_types.
+      * exists 0%nat. cbn. now rewrite app_nil_r.
+    + destruct rev as [ok|].
+      * destruct (is_critical_failure (l_rev lvl) (negb ok)).
+        -- exists 1%nat. cbn [snd]. rewrite map_app. split; [reflexivity | discriminate].
+        -- destruct (IH (rs ++ [mk_res TRev (l_rev lvl) (negb ok)])) as (k & E & _). exists (S k).
+           rewrite E, map_app, <- app_assoc. split; [reflexivity | discriminate].
+      * exists 0%nat. cbn [snd repeat]. rewrite app_nil_r. split; [reflexivity | discriminate].
+    + destruct (IH rs) as (k & E & Z). exists k. split; [exact E | exact Z].
+Qed.
+
+(* ================================================================== *)
+(* D. decomposition of a run                                           *)
+(* ================================================================== *)
+
+Definition obs_bad : obs := mk_obs (EResult TIntegrity) [mk_res TIntegrity Enforce true] false [] None.
+Definition integ_res : result := mk_res TIntegrity Enforce false.
+
+(* processSignature from "verify x509 trust store based authenticity" on *)
+Definition after_native (lvl : level) (sc : scenario) (caps : list cap) (gets : list string) (plugin : bool) : obs :=
+  match native lvl sc caps with
+  | (ENone, rs4, called) =>
+      let to_verify := caps_to_verify lvl caps in
+      match to_verify with
+      | _ :: _ =>
+          let exec := Some (to_verify, other_keys sc) in
+          match s_presp sc with
+          | PErr => mk_obs EOther rs4 called gets exec
+          | PResp processed ti rev =>
+              let '(e, rs5) := process_plugin_response crit_processed lvl sc to_verify processed ti rev rs4 in
+              mk_obs e rs5 called gets exec
+          end
+      | [] =>
+          if negb plugin && any_critical_attribute sc
+          then mk_obs EInconclusive rs4 called gets None
+          else mk_obs ENone rs4 called gets None
+      end
+  | (e, rs, called) => mk_obs e rs called gets None
+  end.
+
+Lemma run_cases lvl sc :
+  verify_core lvl sc =
+  if s_integrity_ok sc then
+    match discover sc with
+    | DErr e gets => mk_obs e [integ_res] false gets None
+    | DNoPlugin => after_native lvl sc [] [] false
+    | DPlugin n vc => after_native lvl sc vc [n] true
+    end
+  else obs_bad.
+Proof.
+  unfold verify_core, process_signature, process_signature_gen, after_native.
+  destruct (s_integrity_ok sc); cbn [negb]; [|reflexivity].
+  destruct (discover sc); reflexivity.
+Qed.
+
+Lemma run_decomp lvl sc :
+  (s_integrity_ok sc = false /\ verify_core lvl sc = obs_bad)
+  \/ (s_integrity_ok sc = true /\ s_nonstring_crit sc || plugin_unusable sc = true
+      /\ exists e gets, (e = EInconclusive \/ e = EOther) /\ verify_core lvl sc = mk_obs e [integ_res] false gets None)
+  \/ (s_integrity_ok sc = true /\ s_nonstring_crit sc = false /\ plugin_unusable sc = false
+      /\ exists gets, verify_core lvl sc = after_native lvl sc (caps_of sc) gets (plugin_demanded sc)).
+Proof.
+  rewrite (run_cases lvl sc). pose proof (discover_spec sc) as DS.
+  destruct (s_integrity_ok sc); [|left; auto]. right.
+  destruct (discover sc) as [e gets| |n vc].
+  - left. destruct DS as [NE PU]. repeat split; [exact PU|]. eauto.
+  - right. destruct DS as (PD & NS & UC). unfold plugin_unusable, caps_of. rewrite PD, NS, UC.
+    repeat split. eauto.
+  - right. destruct DS as (UC & PD & NS & _). unfold plugin_unusable, caps_of. rewrite PD, NS, UC.
+    repeat split. eauto.
+Qed.
